@@ -204,7 +204,8 @@ fn compare_eq(left: &dyn Array, right: &dyn Array) -> Result<BooleanArray> {
                     if left_arr.is_null(i) || right_arr.is_null(i) {
                         None
                     } else {
-                        Some(left_arr.value(i) == right_arr.value(i))
+                        // total order, like Arrow's cmp kernels (NaN == NaN, -0.0 < 0.0)
+                        Some(left_arr.value(i).total_cmp(&right_arr.value(i)).is_eq())
                     }
                 })
                 .collect::<BooleanArray>())
@@ -260,7 +261,8 @@ fn compare_lt(left: &dyn Array, right: &dyn Array) -> Result<BooleanArray> {
                     if left_arr.is_null(i) || right_arr.is_null(i) {
                         None
                     } else {
-                        Some(left_arr.value(i) < right_arr.value(i))
+                        // total order, like Arrow's cmp kernels (NaN == NaN, -0.0 < 0.0)
+                        Some(left_arr.value(i).total_cmp(&right_arr.value(i)).is_lt())
                     }
                 })
                 .collect::<BooleanArray>())
